@@ -560,8 +560,8 @@ class C02(Property):
         "space and has one entry per species) because mode True checks no residual",
         "that linsolve + symbol surgery / CBC do hand back a positive multiple of the ray (the premise of gate_complete_on_ray) and that "
         "generated instances are single-ray (exact rank in the harness): per instance, planted answers",
-        "`underdetermined=1` (deprecated spelling of None, `is 1` test + DeprecationWarning): the driver maps it to the `smallest` mode; that the code does "
-        "the same is decided by correspondence and oracle (same claims as for None), there is no theorem about the argument decoding",
+        "`underdetermined=1` (deprecated spelling of None): modelled as RawMode.one (-> smallest mode after the duplicate handling, NotImplementedError with "
+        "duplicates because the raw argument is not None); decided by correspondence (incl. dup x mode 1) and oracle, no theorem beyond the `balanceCall .one` example",
         "the parameter-elimination surgery between linsolve and the gate (incl. its `raise ValueError('Bug, please report')` and the `symb / cd` rescaling) "
         "is part of the solver parameter: executed by three-ray instances and by an injected non-linear solver answer, judged by the oracle only "
         "(balanced identically / refused with ValueError)",
@@ -634,7 +634,7 @@ class C02(Property):
                 return res
             except Exception as e:
                 if leaf:
-                    calls.append([r, p, exc_name(e)])
+                    calls.append([r, p, err_line(e)])
                 raise
 
         cc.balance_stoichiometry = wrapper
@@ -779,7 +779,8 @@ class C02(Property):
                 rng.shuffle(r1)
                 rng.shuffle(p1)
                 inst2 = decorate(rng, dict(inst, reactants=r1, products=p1), allow_sets=False)
-                add({'op': 'dup', 'kind': 'dup', 'inst': inst2, 'mode': 'None'})
+                # by construction a duplicate-free selection with a positive solution exists (the planted sides) and the brute force tries it
+                add({'op': 'dup', 'kind': 'dup', 'inst': inst2, 'mode': 'None', 'selection_exists': True})
                 if rng.random() < 0.4:
                     add({'op': 'dup', 'kind': 'dup', 'inst': inst2, 'mode': rng.choice(['True', 'False', '1', '1'])})
                 if rng.random() < 0.3:
@@ -958,8 +959,12 @@ class C02(Property):
                 return None
             if out['res'] is None:
                 e = out['exc']
-                if c['mode'] != 'None':
+                if c['mode'] != 'None' and set(inst['reactants']) & set(inst['products']):
                     return None if isinstance(e, NotImplementedError) else 'allow_duplicates with mode %s raised %s' % (c['mode'], exc_name(e))
+                # (identical species sets on both sides are refused by design: 'cannot balance: reactants and products identical')
+                if isinstance(e, ValueError) and c.get('selection_exists') and set(inst['reactants']) != set(inst['products']):
+                    return ('allow_duplicates gave up (%s) although a duplicate-free selection of the species with a positive solution exists'
+                            % str(e)[:60])
                 return None if isinstance(e, ValueError) else 'allow_duplicates raised %s: %s' % (exc_name(e), str(e)[:80])
             r, p = out['res']
             return self._judge(inst, 'None', r, p, comps, keys, dup=True)
